@@ -256,3 +256,47 @@ CONTRACTS.update(
         ),
     }
 )
+
+NBL = "(parser.whitespace, parser.carriage_return, parser.blank_line)"
+HOMS["nonblank"] = dict(elem=ITEM, ctx=[], result="list[%s]" % ITEM, unit="([] if isinstance(x, %s) else [x])" % NBL)
+HOMS["crs"] = dict(elem=ITEM, ctx=[], result="list[%s]" % ITEM, unit="([x] if isinstance(x, parser.carriage_return) else [])")
+HOMS["n_blank"] = dict(elem=ITEM, ctx=[], result="int", unit="(1 if isinstance(x, parser.blank_line) else 0)")
+
+CONTRACTS.update(
+    {
+        # the normalisers that run after phase 1 (C01, C02, C08): they only add blank_line markers and drop white space
+        "vsg.vhdlFile.utils.fix_blank_lines": dict(
+            types={"lTokens": "list[%s]" % ITEM},
+            returns="list[%s]" % ITEM,
+            locals={"lReturn": "list[%s]" % ITEM},
+            ensures=[
+                # every code token, comment, pragma and preprocessor line is still there: same objects, same order
+                "nonblank(result) == nonblank(lTokens)",
+                # and so is every line break
+                "crs(result) == crs(lTokens)",
+            ],
+            loops={1: dict(invariant=["nonblank(lReturn) == nonblank(lTokens[:_i])", "crs(lReturn) == crs(lTokens[:_i])"])},
+        ),
+        "vsg.vhdlFile.utils.fix_trailing_whitespace": dict(
+            types={"lTokens": "list[%s]" % ITEM},
+            returns="list[%s]" % ITEM,
+            locals={"lReturn": "list[%s]" % ITEM},
+            ensures=[
+                "nonblank(result) == nonblank(lTokens)",
+                "crs(result) == crs(lTokens)",
+                "n_blank(result) == n_blank(lTokens)",
+            ],
+            loops={
+                1: dict(
+                    invariant=[
+                        "nonblank(lReturn) == nonblank(lTokens[:_i])",
+                        "crs(lReturn) == crs(lTokens[:_i])",
+                        "n_blank(lReturn) == n_blank(lTokens[:_i])",
+                        "implies(_i > 0, len(lReturn) > 0 and lReturn[len(lReturn) - 1] == lTokens[_i - 1])",
+                        "implies(_i == 0, len(lReturn) == 0)",
+                    ]
+                )
+            },
+        ),
+    }
+)
